@@ -263,7 +263,9 @@ func runClient(w *World, h http.Handler, p TunnelPlan, o *TunnelObs) {
 	}
 	if p.StopAt != "open" && p.StopAt != "accepted" {
 		for _, s := range steps {
-			c.SendSegment(s.pkt)
+			if !(w.InPreload != nil && s.name == "hs" && p.Kind == "legacy") {
+				c.SendSegment(s.pkt)
+			}
 			if !expect(s.resp) {
 				return
 			}
@@ -575,7 +577,11 @@ func RunConc(sc ConcScenario, prefix []int, logOn bool) *ConcResult {
 		w.PostRead = sc.PostRead
 		w.ClientWindow = sc.ClientWindow
 		w.Parties = len(sc.Plans)
-		w.InPreload = sc.InPreload
+		if sc.InPreload {
+			// the chunk with the handshake request travels with the request head
+			hs := hsPacket(sc.Plans[0])
+			w.InPreload = append(append([]byte(strconv.FormatInt(int64(len(hs)), 16)+"\r\n"), hs...), '\r', '\n')
+		}
 		res.World = w
 		cfg := sc.Gw
 		if cfg.Hosts == nil {
